@@ -6,6 +6,7 @@
 #include <cstdio>
 #include <map>
 #include <string>
+#include <set>
 #include <unordered_set>
 #include <vector>
 
